@@ -76,6 +76,11 @@ def generate(ctx):
                 sub = sub + [b'\xff\xfe']          # a key that is not UTF-8
             ctx.add('exists_all_keys %s %s' % (e, gen.hexlist(sub)))
             ctx.add('exists_any_keys %s %s' % (e, gen.hexlist(sub)))
+        # key LISTS are iterators, not sets: the empty list, repeated keys, more keys than the container has members
+        present = common.keys_of(v)[:2] or [x[1] for x in (v[1] if v[0] == 'a' else []) if x[0] == 's'][:2]
+        for sub in ([], present * 2, (present[:1] * 5) if present else [b'a'] * 3, present + [b'missing'] + present):
+            ctx.add('exists_all_keys %s %s' % (e, gen.hexlist(sub)))
+            ctx.add('exists_any_keys %s %s' % (e, gen.hexlist(sub)))
         strs = [x[1] for x in gen.subvalues(v) if x[0] == 's'] + common.keys_of(v)
         for needle in ([b'', b'zzz'] + [s[:2] for s in strs[:3]] + strs[-1:]):
             ctx.add('traverse_check_string %s %s' % (e, gen.hexarg(needle)))
